@@ -22,7 +22,7 @@ THEORY_EXTRA = [
 def run_C04(ctx):
     V.build()
     q = ctx.quick()
-    progs = V.tlc_generate(ctx, "program", 150 if q else 1200, 1 if q else 2)
+    progs = V.tlc_generate(ctx, "program", 150 if q else 800, 1 if q else 2)
     progs += V.tlc_generate(ctx, "sysrule", 60 if q else 738, 2, {"GEN_STRIDE": 197 if q else 2})
     progs += [{"id": f"t{i}", "prog": p} for i, p in enumerate(C.TABLE_PROGRAMS + C04_PROGRAMS)]
     for i, (name, text) in enumerate(V.repo_programs()):
